@@ -14,10 +14,12 @@ import (
 	"fmt"
 	"go/ast"
 	"go/format"
+	"go/parser"
 	"go/token"
 	"go/types"
 	"os"
 	"path/filepath"
+	"sort"
 	"strconv"
 	"strings"
 
@@ -28,18 +30,77 @@ import (
 const modPath = "github.com/bluenviron/gomavlib/v3"
 const vmcPath = modPath + "/pkg/vmc"
 
+// importMap: packages whose behaviour the controlled scheduler owns. A qualified identifier
+// pkg.Name is redirected to the shim when the shim exports Name; every other name keeps using
+// the real package (types, constants and pure functions need no shim). Names listed in
+// mustShim (or all names, "*") have behaviour the scheduler must own: using one the shim lacks
+// is reported as unsupported instead of silently escaping the scheduler.
 var importMap = map[string]string{
-	"sync":                              vmcPath + "/vsync",
-	"context":                           vmcPath + "/vctx",
-	"time":                              vmcPath + "/vtime",
-	"net":                               vmcPath + "/vnet",
-	"crypto/rand":                       vmcPath + "/vrand",
-	"github.com/pion/transport/v2/udp": vmcPath + "/vudp",
+	"sync":                             "vsync",
+	"sync/atomic":                      "vatomic",
+	"context":                          "vctx",
+	"time":                             "vtime",
+	"net":                              "vnet",
+	"crypto/rand":                      "vrand",
+	"math/rand":                        "vmrand",
+	"math/rand/v2":                     "vmrand2",
+	"github.com/pion/transport/v2/udp": "vudp",
 }
 
-var defaultNames = map[string]string{
-	"sync": "sync", "context": "context", "time": "time", "net": "net", "crypto/rand": "rand",
-	"github.com/pion/transport/v2/udp": "udp",
+var mustShim = map[string][]string{
+	"sync":        {"*"},
+	"sync/atomic": {"*"},
+	"context":     {"*"},
+	"time":        {"Now", "Since", "Until", "After", "Sleep", "Tick", "NewTicker", "NewTimer", "AfterFunc", "Timer", "Ticker"},
+	"net": {"Listen", "ListenPacket", "Dial", "DialTimeout", "Dialer", "ListenConfig", "ListenUDP", "ListenTCP", "ListenIP", "ListenUnix",
+		"ListenUnixgram", "ListenMulticastUDP", "DialUDP", "DialTCP", "DialIP", "DialUnix", "Pipe", "FileConn", "FileListener", "FilePacketConn",
+		"LookupHost", "LookupIP", "LookupAddr", "LookupPort", "LookupCNAME", "LookupSRV", "LookupMX", "LookupNS", "LookupTXT", "Resolver", "DefaultResolver"},
+	"crypto/rand":                      {"Read", "Reader", "Int", "Prime", "Text"},
+	"math/rand":                        {"Int", "Intn", "Int31", "Int31n", "Int63", "Int63n", "Uint32", "Uint64", "Float32", "Float64", "ExpFloat64", "NormFloat64", "Perm", "Shuffle", "Read", "Seed"},
+	"math/rand/v2":                     {"Int", "IntN", "Int32", "Int32N", "Int64", "Int64N", "Uint", "UintN", "Uint32", "Uint32N", "Uint64", "Uint64N", "Float32", "Float64", "ExpFloat64", "NormFloat64", "Perm", "Shuffle", "N"},
+	"github.com/pion/transport/v2/udp": {"Listen", "ListenConfig"},
+}
+
+// shimExports[shim dir] = exported top-level names (filled from the shim sources)
+var shimExports = map[string]map[string]bool{}
+
+func loadShimExports(vmcDir string) {
+	for _, dir := range importMap {
+		names := map[string]bool{}
+		fset := token.NewFileSet()
+		pkgs, err := parser.ParseDir(fset, filepath.Join(vmcDir, dir), nil, 0)
+		if err != nil {
+			die("shim %s: %v", dir, err)
+		}
+		for _, p := range pkgs {
+			for _, f := range p.Files {
+				for _, d := range f.Decls {
+					switch x := d.(type) {
+					case *ast.FuncDecl:
+						if x.Recv == nil && x.Name.IsExported() {
+							names[x.Name.Name] = true
+						}
+					case *ast.GenDecl:
+						for _, sp := range x.Specs {
+							switch y := sp.(type) {
+							case *ast.TypeSpec:
+								if y.Name.IsExported() {
+									names[y.Name.Name] = true
+								}
+							case *ast.ValueSpec:
+								for _, n := range y.Names {
+									if n.IsExported() {
+										names[n.Name] = true
+									}
+								}
+							}
+						}
+					}
+				}
+			}
+		}
+		shimExports[dir] = names
+	}
 }
 
 func die(format string, a ...any) {
@@ -63,19 +124,56 @@ func main() {
 		BuildFlags: []string{"-tags=verif"},
 		Env:        append(os.Environ(), "GOFLAGS=-mod=mod", "GOPROXY=off", "GOSUMDB=off", "GOTOOLCHAIN=local"),
 	}
-	pkgs, err := packages.Load(cfg, ".", "./pkg/frame", "./pkg/streamwriter", "./pkg/timednetconn")
+	loadShimExports(*vmcDir)
+	cfg.Mode |= packages.NeedImports | packages.NeedDeps
+	roots, err := packages.Load(cfg, ".")
 	if err != nil {
 		die("load: %v", err)
 	}
+	// every package of the module the root package depends on is rewritten (a goroutine, channel,
+	// lock or clock read that moves into another package of the module stays under the
+	// scheduler); the generated dialect packages are data only and stay as they are
+	var pkgs []*packages.Package
+	seen := map[string]bool{}
+	var visit func(p *packages.Package)
+	visit = func(p *packages.Package) {
+		if seen[p.PkgPath] {
+			return
+		}
+		seen[p.PkgPath] = true
+		if p.PkgPath != modPath && !strings.HasPrefix(p.PkgPath, modPath+"/") {
+			return
+		}
+		if strings.HasPrefix(p.PkgPath, modPath+"/pkg/dialects") || strings.HasPrefix(p.PkgPath, vmcPath) {
+			return
+		}
+		pkgs = append(pkgs, p)
+		var keys []string
+		for k := range p.Imports {
+			keys = append(keys, k)
+		}
+		sort.Strings(keys)
+		for _, k := range keys {
+			visit(p.Imports[k])
+		}
+	}
+	for _, p := range roots {
+		visit(p)
+	}
+	for _, p := range pkgs {
+		if !untracked[p.PkgPath] {
+			tracked[p.PkgPath] = true
+		}
+	}
+	allPkgs = pkgs
 	overlay := map[string]string{}
 	for _, p := range pkgs {
 		if len(p.Errors) > 0 {
 			die("package %s: %v", p.PkgPath, p.Errors)
 		}
-		full := p.PkgPath == modPath
 		for i, f := range p.Syntax {
 			name := p.CompiledGoFiles[i]
-			rw := &rewriter{pkg: p, file: f, full: full, race: *race && (full || strings.HasSuffix(p.PkgPath, "/frame") || strings.HasSuffix(p.PkgPath, "/streamwriter"))}
+			rw := &rewriter{pkg: p, file: f, full: true, race: *race && tracked[p.PkgPath]}
 			changed := rw.run()
 			if !changed {
 				continue
@@ -124,14 +222,19 @@ type rewriter struct {
 	regLits   map[*ast.UnaryExpr]bool
 
 	// race mode
-	ptrRecv bool
-	inReg   map[*ast.CallExpr]bool
+	ptrRecv      bool
+	inReg        map[*ast.CallExpr]bool
 	selectBlocks map[*ast.BlockStmt]bool
-	accW    map[ast.Expr]bool // expression is written (assignment target, inc/dec)
-	skipAcc map[ast.Expr]bool // address taken / struct-valued inner selector: not an access
+	accW         map[ast.Expr]bool // expression is written (assignment target, inc/dec)
+	skipAcc      map[ast.Expr]bool // address taken / struct-valued inner selector: not an access
 }
 
-var tracked = map[string]bool{modPath: true, modPath + "/pkg/frame": true, modPath + "/pkg/streamwriter": true}
+// race mode: packages whose memory accesses are instrumented: every rewritten package except
+// the codec packages (pure functions of their arguments on the paths the node uses; their
+// reflection-heavy inner loops would dominate the run time)
+var tracked = map[string]bool{}
+var untracked = map[string]bool{modPath + "/pkg/message": true, modPath + "/pkg/dialect": true, modPath + "/pkg/x25": true}
+var allPkgs []*packages.Package
 
 // pointerReceivers (race mode): value-receiver methods of struct types that also have
 // pointer-receiver methods (V1Frame, V2Frame getters) get pointer receivers, so that the field
@@ -170,10 +273,37 @@ func (r *rewriter) pointerReceivers() {
 		if _, isStruct := obj.Type().Underlying().(*types.Struct); !isStruct {
 			continue
 		}
+		if valueImplementsSomething(obj.Type()) {
+			// the value type satisfies an interface of the module through its value-receiver
+			// methods (endpoint configurations): pointer receivers would break that
+			continue
+		}
 		fd.Recv.List[0].Type = &ast.StarExpr{X: id}
 		r.changed = true
 		r.ptrRecv = true
 	}
+}
+
+// valueImplementsSomething: T (not *T) implements a non-empty interface declared in one of the
+// rewritten packages.
+func valueImplementsSomething(t types.Type) bool {
+	for _, p := range allPkgs {
+		sc := p.Types.Scope()
+		for _, name := range sc.Names() {
+			tn, ok := sc.Lookup(name).(*types.TypeName)
+			if !ok {
+				continue
+			}
+			it, ok := tn.Type().Underlying().(*types.Interface)
+			if !ok || it.NumMethods() == 0 {
+				continue
+			}
+			if types.Implements(t, it) {
+				return true
+			}
+		}
+	}
+	return false
 }
 
 func unparen(e ast.Expr) ast.Expr {
@@ -285,7 +415,6 @@ func (r *rewriter) raceWrap(e ast.Expr, write bool, at ast.Node) ast.Expr {
 	return &ast.ParenExpr{X: &ast.StarExpr{X: call(r.vmc(fn), &ast.UnaryExpr{Op: token.AND, X: e}, r.site(at))}}
 }
 
-
 func (r *rewriter) vmc(name string) ast.Expr {
 	r.usesVmc = true
 	return &ast.SelectorExpr{X: ast.NewIdent("vmc"), Sel: ast.NewIdent(name)}
@@ -297,21 +426,7 @@ func method(x ast.Expr, name string, args ...ast.Expr) *ast.CallExpr {
 }
 
 func (r *rewriter) run() bool {
-	// imports
-	for _, is := range r.file.Imports {
-		p, _ := strconv.Unquote(is.Path.Value)
-		if np, ok := importMap[p]; ok {
-			if is.Name == nil {
-				is.Name = ast.NewIdent(defaultNames[p])
-			}
-			is.Path.Value = strconv.Quote(np)
-			is.EndPos = 0
-			r.changed = true
-		}
-	}
-	if !r.full && !r.race {
-		return r.changed
-	}
+	r.rewriteImports()
 	info := r.pkg.TypesInfo
 	r.accW = map[ast.Expr]bool{}
 	r.skipAcc = map[ast.Expr]bool{}
@@ -324,6 +439,26 @@ func (r *rewriter) run() bool {
 
 	if r.race {
 		r.pointerReceivers()
+	}
+	regKey := map[*ast.IndexExpr]bool{}
+	mapLits := map[*ast.CompositeLit]bool{}
+	markInsert := func(e ast.Expr) {
+		ix, ok := unparen(e).(*ast.IndexExpr)
+		if !ok {
+			return
+		}
+		t := info.TypeOf(ix.X)
+		if t == nil {
+			return
+		}
+		mt, ok := t.Underlying().(*types.Map)
+		if !ok {
+			return
+		}
+		if _, basic := mt.Key().Underlying().(*types.Basic); basic {
+			return
+		}
+		regKey[ix] = true
 	}
 	raceField := map[*ast.SelectorExpr]bool{}
 	raceVar := map[*ast.Ident]bool{}
@@ -349,6 +484,14 @@ func (r *rewriter) run() bool {
 			}
 		}
 		switch n := c.Node().(type) {
+		case *ast.AssignStmt:
+			for _, l := range n.Lhs {
+				markInsert(l)
+			}
+		case *ast.IncDecStmt:
+			markInsert(n.X)
+		}
+		switch n := c.Node().(type) {
 		case *ast.CallExpr:
 			if id, ok := n.Fun.(*ast.Ident); ok && (id.Name == "close" || id.Name == "len" || id.Name == "cap" || id.Name == "delete") && len(n.Args) >= 1 {
 				if _, isBuiltin := info.Uses[id].(*types.Builtin); isBuiltin {
@@ -357,15 +500,12 @@ func (r *rewriter) run() bool {
 			}
 		case *ast.RangeStmt:
 			r.rangeType[n] = info.TypeOf(n.X)
-		case *ast.UnaryExpr:
-			if n.Op == token.AND {
-				if _, ok := n.X.(*ast.CompositeLit); ok {
-					if pt, ok := info.TypeOf(n).(*types.Pointer); ok {
-						if named, ok := pt.Elem().(*types.Named); ok && named.Obj().Pkg() == r.pkg.Types {
-							if _, isStruct := named.Underlying().(*types.Struct); isStruct {
-								r.regLits[n] = true
-							}
-						}
+		case *ast.CompositeLit:
+			// map literal with non-basic keys: the keys enter a map
+			if t := info.TypeOf(n); t != nil {
+				if mt, ok := t.Underlying().(*types.Map); ok {
+					if _, basic := mt.Key().Underlying().(*types.Basic); !basic {
+						mapLits[n] = true
 					}
 				}
 			}
@@ -420,6 +560,22 @@ func (r *rewriter) run() bool {
 				}
 			}
 		}
+		if cl, ok := c.Node().(*ast.CompositeLit); ok && mapLits[cl] {
+			for _, el := range cl.Elts {
+				if kv, ok := el.(*ast.KeyValueExpr); ok {
+					if _, isLit := kv.Key.(*ast.CompositeLit); isLit {
+						continue // elided key type: cannot be wrapped, and holds no pre-existing pointer identity worth an id before use
+					}
+					kv.Key = call(r.vmc("RegKey"), kv.Key)
+					r.changed = true
+				}
+			}
+		}
+		if ix, ok := c.Node().(*ast.IndexExpr); ok && regKey[ix] {
+			// every key that enters a map gets its deterministic order id (see vmc.RegKey)
+			ix.Index = call(r.vmc("RegKey"), ix.Index)
+			r.changed = true
+		}
 		switch n := c.Node().(type) {
 		case *ast.ChanType:
 			if !r.full {
@@ -439,20 +595,6 @@ func (r *rewriter) run() bool {
 									size = n.Args[1]
 								}
 								c.Replace(call(&ast.IndexExpr{X: r.vmc("NewChan"), Index: ix.Index}, size))
-							}
-						}
-					}
-				case "new":
-					// new(T) of a struct type declared in the package: register like &T{}
-					if r.full && len(n.Args) == 1 {
-						if pt, ok := info.TypeOf(n).(*types.Pointer); ok {
-							if named, ok := pt.Elem().(*types.Named); ok && named.Obj().Pkg() == r.pkg.Types {
-								if _, isStruct := named.Underlying().(*types.Struct); isStruct && !r.inReg[n] {
-									wrapped := call(r.vmc("Reg"), n)
-									r.inReg[wrapped] = true
-									c.Replace(wrapped)
-									r.changed = true
-								}
 							}
 						}
 					}
@@ -477,9 +619,6 @@ func (r *rewriter) run() bool {
 				ce := method(n.X, "Recv")
 				r.recvCalls[ce] = n.X
 				c.Replace(ce)
-			} else if r.regLits[n] {
-				c.Replace(call(r.vmc("Reg"), n))
-				r.changed = true
 			}
 		case *ast.AssignStmt:
 			if len(n.Lhs) == 2 && len(n.Rhs) == 1 {
@@ -537,6 +676,95 @@ func (r *rewriter) run() bool {
 		astutil.AddImport(r.pkg.Fset, r.file, vmcPath)
 	}
 	return r.changed
+}
+
+// rewriteImports redirects qualified identifiers of the owned packages to their shims.
+func (r *rewriter) rewriteImports() {
+	info := r.pkg.TypesInfo
+	type imp struct {
+		spec     *ast.ImportSpec
+		path     string
+		shim     string
+		alias    string
+		shimUses int
+		realUses int
+	}
+	byPkgName := map[*types.PkgName]*imp{}
+	var imps []*imp
+	for _, is := range r.file.Imports {
+		p, _ := strconv.Unquote(is.Path.Value)
+		dir, ok := importMap[p]
+		if !ok {
+			continue
+		}
+		if is.Name != nil && (is.Name.Name == "_" || is.Name.Name == ".") {
+			if is.Name.Name == "." {
+				die("%s: dot import of %s is not supported", r.pkg.Fset.Position(is.Pos()), p)
+			}
+			continue
+		}
+		var pn *types.PkgName
+		if is.Name != nil {
+			pn, _ = info.Defs[is.Name].(*types.PkgName)
+		} else {
+			pn, _ = info.Implicits[is].(*types.PkgName)
+		}
+		if pn == nil {
+			continue
+		}
+		im := &imp{spec: is, path: p, shim: dir, alias: "vmcshim_" + dir}
+		byPkgName[pn] = im
+		imps = append(imps, im)
+	}
+	if len(imps) == 0 {
+		return
+	}
+	ast.Inspect(r.file, func(n ast.Node) bool {
+		sel, ok := n.(*ast.SelectorExpr)
+		if !ok {
+			return true
+		}
+		id, ok := sel.X.(*ast.Ident)
+		if !ok {
+			return true
+		}
+		pn, ok := info.Uses[id].(*types.PkgName)
+		if !ok {
+			return true
+		}
+		im := byPkgName[pn]
+		if im == nil {
+			return true
+		}
+		if shimExports[im.shim][sel.Sel.Name] {
+			sel.X = ast.NewIdent(im.alias)
+			im.shimUses++
+			r.changed = true
+			return true
+		}
+		for _, m := range mustShim[im.path] {
+			if m == "*" || m == sel.Sel.Name {
+				die("%s: unsupported: %s.%s has no counterpart on the controlled scheduler (vmc/%s)", r.pkg.Fset.Position(sel.Pos()), im.path, sel.Sel.Name, im.shim)
+			}
+		}
+		im.realUses++
+		return true
+	})
+	for _, im := range imps {
+		if im.shimUses > 0 {
+			astutil.AddNamedImport(r.pkg.Fset, r.file, im.alias, vmcPath+"/"+im.shim)
+		}
+		if im.realUses == 0 {
+			name := ""
+			if im.spec.Name != nil {
+				name = im.spec.Name.Name
+			}
+			if !astutil.DeleteNamedImport(r.pkg.Fset, r.file, name, im.path) {
+				die("cannot delete import %s", im.path)
+			}
+			r.changed = true
+		}
+	}
 }
 
 func isVmcSel(e ast.Expr, name string) bool {
@@ -644,12 +872,12 @@ func (r *rewriter) rewriteGo(g *ast.GoStmt) ast.Stmt {
 		blk.List = append(blk.List, &ast.AssignStmt{Lhs: []ast.Expr{ast.NewIdent(an)}, Tok: token.DEFINE, Rhs: []ast.Expr{a}})
 		args = append(args, ast.NewIdent(an))
 	}
-	var body ast.Expr
-	if len(args) == 0 {
-		body = ast.NewIdent(fn)
-	} else {
-		body = &ast.FuncLit{Type: &ast.FuncType{Params: &ast.FieldList{}}, Body: &ast.BlockStmt{List: []ast.Stmt{&ast.ExprStmt{X: call(ast.NewIdent(fn), args...)}}}}
+	// always through a literal: the function may return values (go x.Close())
+	inner := call(ast.NewIdent(fn), args...)
+	if c.Ellipsis.IsValid() {
+		inner.Ellipsis = 1 // go f(a, rest...): keep the spread
 	}
+	var body ast.Expr = &ast.FuncLit{Type: &ast.FuncType{Params: &ast.FieldList{}}, Body: &ast.BlockStmt{List: []ast.Stmt{&ast.ExprStmt{X: inner}}}}
 	blk.List = append(blk.List, &ast.ExprStmt{X: call(r.vmc("Go"), body)})
 	return blk
 }
